@@ -1117,7 +1117,10 @@ func (g *gen) litValue(e ast.Expr) string {
 		if tv.Value.Kind() == constant.String {
 			return strLit(constant.StringVal(tv.Value))
 		}
-		return tv.Value.ExactString()
+		if n := g.constInt(e); n != nil {
+			return tv.Value.ExactString()
+		}
+		g.die(e, "table element %s: only strings and non-negative integers are modelled", g.src(e))
 	}
 	g.die(e, "table element %s", g.src(e))
 	return ""
@@ -1211,6 +1214,14 @@ func (g *gen) precheck(name string, fd *ast.FuncDecl, tableMode bool) {
 					g.die(fd, "%s: the name %q is declared again in a nested scope (shadowing) — not modelled", name, nm)
 				}
 			}
+		}
+	}
+	// (a0) identifiers of tables, error sentinels and helper functions are resolved by NAME below: a local that re-uses a
+	// package-level name would be read as the package object
+	for nm := range byName {
+		// (constants are resolved by object through their value; tables and error sentinels are looked up by name)
+		if _, isVar := g.pkg.Scope().Lookup(nm).(*types.Var); isVar {
+			g.die(fd, "%s: the local name %q is also a package-level variable (a table or an error sentinel is looked up by name) — not modelled", name, nm)
 		}
 	}
 	// (a') two Go names that become ONE Lean name: reserved words are renamed (`e` -> `e_`), struct fields are bare names
@@ -1485,6 +1496,11 @@ func (g *gen) precheck(name string, fd *ast.FuncDecl, tableMode bool) {
 		case *ast.DeclStmt, *ast.AssignStmt:
 			if a, ok := x.(*ast.AssignStmt); ok {
 				for _, l := range a.Lhs {
+					if st, isStar := stripParens(l).(*ast.StarExpr); isStar && tableMode {
+						if id, ok := stripParens(st.X).(*ast.Ident); ok && fd.Recv != nil && len(fd.Recv.List[0].Names) > 0 && id.Name == fd.Recv.List[0].Names[0].Name {
+							g.die(a, "assignment to the whole object through the receiver (`*recv = …`) is not modelled")
+						}
+					}
 					if _, isIdx := stripParens(l).(*ast.IndexExpr); isIdx && isTainted(l) {
 						g.die(a, "write through a local alias of a package-level table")
 					}
@@ -1538,6 +1554,19 @@ func (g *gen) precheck(name string, fd *ast.FuncDecl, tableMode bool) {
 						if _, isPtr := o.Type().Underlying().(*types.Pointer); isPtr {
 							g.die(id, "local variable %s of pointer type is not modelled", id.Name)
 						}
+					}
+				}
+			}
+		case *ast.RangeStmt:
+			// `for _, v = range xs` ASSIGNS an existing variable (or a field!) on every iteration: only `:=` with plain
+			// identifiers is modelled
+			if x.Tok != token.DEFINE && (x.Key != nil || x.Value != nil) {
+				g.die(x, "range that assigns to existing variables (`=` instead of `:=`) is not modelled")
+			}
+			for _, kv := range []ast.Expr{x.Key, x.Value} {
+				if kv != nil {
+					if _, ok := kv.(*ast.Ident); !ok {
+						g.die(x, "range key/value that is not a plain identifier is not modelled")
 					}
 				}
 			}
@@ -2398,6 +2427,16 @@ func stateFacts(fset *token.FileSet, files []*ast.File, info *types.Info, pkg *t
 					if v, ok := isPkgVar(x.X); ok {
 						writes = append(writes, fn+":"+v)
 					}
+				case *ast.RangeStmt:
+					if x.Tok == token.ASSIGN {
+						for _, kv := range []ast.Expr{x.Key, x.Value} {
+							if kv != nil {
+								if v, ok := isPkgVar(kv); ok {
+									writes = append(writes, fn+":"+v)
+								}
+							}
+						}
+					}
 				case *ast.UnaryExpr:
 					if x.Op == token.AND {
 						if v, ok := isPkgVar(x.X); ok {
@@ -2538,6 +2577,14 @@ func stateFacts(fset *token.FileSet, files []*ast.File, info *types.Info, pkg *t
 				case *ast.IncDecStmt:
 					if rooted(x.X) {
 						eff["writes"] = true
+					}
+				case *ast.RangeStmt:
+					if x.Tok == token.ASSIGN {
+						for _, kv := range []ast.Expr{x.Key, x.Value} {
+							if kv != nil && rooted(kv) {
+								eff["writes"] = true
+							}
+						}
 					}
 				case *ast.UnaryExpr:
 					if x.Op == token.AND && rooted(x.X) {
